@@ -17,3 +17,10 @@ Definition constant_ratio (r : R) (v : list R) : Prop :=
 
 Definition graded_mesh (xb xe : R) (n : nat) (v : list R) : Prop :=
   endpoints xb xe n v /\ strictly_monotone xb xe v /\ exists r, 0 < r /\ constant_ratio r v.
+
+(* orientation made explicit: increasing when xb < xe, decreasing when xe < xb, every node between the two ends *)
+Definition oriented (xb xe : R) (v : list R) : Prop :=
+  (xb < xe -> forall k, (S k < length v)%nat -> node v k < node v (S k)) /\
+  (xe < xb -> forall k, (S k < length v)%nat -> node v (S k) < node v k).
+Definition between_ends (xb xe : R) (v : list R) : Prop :=
+  forall k, (k < length v)%nat -> Rmin xb xe <= node v k <= Rmax xb xe.
